@@ -388,6 +388,11 @@ func ruleLocks(structs ...string) ruleFn {
 				mfield, isGuarded := guardedFields[sname][f.Name()]
 				if !isGuarded {
 					if _, known := guardedFields[sname]; known {
+						if r.atomicOnly(sname, f.Name(), f.Type()) {
+							nAcc++
+							r.OK("R2.L1", name, "access "+shortStruct(sname)+"."+f.Name(), r.P.pos(fa.Pos()), "every access in the module goes through sync/atomic (the field's address is only ever handed to sync/atomic functions, or its type is one of sync/atomic's)")
+							continue
+						}
 						if valueImmutable(f.Type()) && r.constructorOnly(sname, f.Name()) {
 							nAcc++
 							r.OK("R2.L1", name, "access "+shortStruct(sname)+"."+f.Name(), r.P.pos(fa.Pos()), "a plain value (number, string, bool or function) stored only into structs the storing function has just allocated: immutable after construction")
@@ -499,6 +504,43 @@ func valueImmutable(t types.Type) bool {
 		return true
 	}
 	return false
+}
+
+// atomicOnly: the field is a sync/atomic type, or every use of its address anywhere in the
+// module is as an argument of a sync/atomic function (no plain load, no plain store outside a
+// struct the storing function has just allocated).
+func (r *Run) atomicOnly(sname, field string, t types.Type) bool {
+	if strings.HasPrefix(namedOf(t), "sync/atomic.") {
+		return true
+	}
+	n := 0
+	for _, fn := range r.P.Funcs {
+		for _, ins := range allInstrs(fn) {
+			x, ok := ins.(*ssa.FieldAddr)
+			if !ok || structOfFieldAddr(x) != sname || fieldOf(x) == nil || fieldOf(x).Name() != field {
+				continue
+			}
+			al, isAl := x.X.(*ssa.Alloc)
+			fresh := isAl && al.Parent() == fn
+			for _, ref := range *x.Referrers() {
+				switch y := ref.(type) {
+				case *ssa.DebugRef:
+				case ssa.CallInstruction:
+					if !strings.HasPrefix(calleeName(y.Common()), "sync/atomic.") {
+						return false
+					}
+					n++
+				case *ssa.Store:
+					if !(fresh && y.Addr == ssa.Value(x)) {
+						return false
+					}
+				default:
+					return false
+				}
+			}
+		}
+	}
+	return n > 0
 }
 
 // constructorOnly: every store to the named field anywhere in the module targets a struct
